@@ -159,6 +159,19 @@ def run(ctx):
         for _k in range(ctx.rng.randint(0, 2)):
             b.randomize()
         b.group = np.array(group, dtype=object); rc_ = guarded(b.randomize, True, mk())
+        # the copying variant: the seed, not the history of the object, determines the returned assignment
+        np.random.seed(ctx.rng.randint(0, 10**6))
+        c1_, c2_ = fresh(), fresh()
+        for _k in range(ctx.rng.randint(0, 2)):
+            c2_.randomize()
+        c2_.group = np.array(group, dtype=object)
+        q1, q2 = guarded(c1_.randomize, False, mk()), guarded(c2_.randomize, False, mk())
+        # (not compared with the in-place result: copy.deepcopy of a cryptorandom SHA256 continues from a re-derived state,
+        #  third-party behaviour, so the copy's assignment is another — equally seed-determined — one)
+        if q1[0] != "ok" or q2[0] != "ok" or q1[1].group.tolist() != q2[1].group.tolist():
+            ctx.violation("oracle", {"call": "Experiment.randomize(in_place=False)", "group": group, "seed": seed, "seed_given_as": skind, "stratified": strat, "covariate": cov,
+                                     "issue": "a seeded randomisation returned as a copy is not determined by the seed (differs between objects with different histories)",
+                                     "copies": [str(q1[1].group.tolist() if q1[0] == "ok" else q1[1:]), str(q2[1].group.tolist() if q2[0] == "ok" else q2[1:])], "in_place": first}, site="Experiment")
         ctx.case(("repro", tuple(group), seed, skind, strat), True); ctx.count("seeded-reproducible-" + skind)
         if ra[0] != "ok" or rb[0] != "ok" or rc_[0] != "ok" or a.group.tolist() != first or b.group.tolist() != first:
             ctx.violation("oracle", {"call": "Experiment.randomize", "group": group, "seed": seed, "seed_given_as": skind, "stratified": strat, "covariate": cov,
@@ -183,6 +196,13 @@ def run(ctx):
             if l not in group:
                 group[labels.index(l)] = l
         resp = [[float(ctx.rng.randint(0, 9)), ctx.rng.randint(-4, 4) / 2] for _ in range(n)]
+        # a quarter of the cases: response columns on a large baseline (raw counts, timestamps; exact in doubles).  The documented
+        # statistics (differences of means, centred sums of squares, scipy's two-pass t) are stable there; comparisons get an
+        # absolute slack of a few hundred ulps of the baseline, a cancelling one-pass formula is off by many orders more
+        off = float(ctx.rng.choice([2**24, 2**27])) if ctx.rng.random() < 0.25 else 0.0
+        if off:
+            resp = [[v + off for v in r_] for r_ in resp]; ctx.count("response-on-a-large-baseline")
+        slack = 512 * n * 10 * off * 2.0 ** -52
         e = npc.Experiment(group, resp)
         idx = ctx.rng.randint(0, 1)
         code = intern(group)
@@ -195,13 +215,13 @@ def run(ctx):
             a = [c for c, g in zip(col, group) if g == u[0]]; b = [c for c, g in zip(col, group) if g == u[1]]
             want = sum(a) / len(a) - sum(b) / len(b)
             r = guarded(npc.Experiment.TestFunc.mean_diff, e, idx); r2 = guarded(arr[idx], e)
-            if r[0] != "ok" or not close(r[1], want) or r2[0] != "ok" or r2[1] != r[1]:
+            if r[0] != "ok" or not close(r[1], want, ab=1e-12 + slack) or r2[0] != "ok" or r2[1] != r[1]:
                 det.update({"issue": "mean_diff is not the difference in means of the first group (sorted label order) against the second, or make_test_array(func, indices)[i](data) != func(data, indices[i])",
                             "returned": [r[1:], r2[1:]], "expected": float(want)}); ctx.violation("oracle", det, site="TestFunc")
             rt_ = guarded(npc.Experiment.TestFunc.ttest, e, idx)
-            ops.append(f"testfunc|mean_diff|{idx}|{ints([code[v] for v in group])}|{rows(resp)}"); meta.append(("tf", det, r))
+            ops.append(f"testfunc|mean_diff|{idx}|{ints([code[v] for v in group])}|{rows(resp)}"); meta.append(("tf", det, r, slack))
             if len(a) + len(b) > 2 and (len(set(a)) > 1 or len(set(b)) > 1) and len(a) > 0 and len(b) > 0:
-                ops.append(f"testfunc|ttest|{idx}|{ints([code[v] for v in group])}|{rows(resp)}"); meta.append(("tt", det, rt_))
+                ops.append(f"testfunc|ttest|{idx}|{ints([code[v] for v in group])}|{rows(resp)}"); meta.append(("tt", det, rt_, slack))
         else:
             r = guarded(npc.Experiment.TestFunc.mean_diff, e, idx)
             if not (r[0] == "exc" and r[1] == "ValueError"):
@@ -209,20 +229,21 @@ def run(ctx):
         m = sum(col) / len(col)
         want = sum((sum(c for c, g in zip(col, group) if g == k) / group.count(k) - m) ** 2 * group.count(k) for k in set(group))
         r = guarded(npc.Experiment.TestFunc.one_way_anova, e, idx)
-        if r[0] != "ok" or not close(r[1], want):
+        if r[0] != "ok" or not close(r[1], want, ab=1e-12 + slack):
             det.update({"issue": "one_way_anova is not the size-weighted between-group sum of squares", "returned": r[1:], "expected": float(want)}); ctx.violation("oracle", det, site="TestFunc")
-        ops.append(f"testfunc|one_way_anova|{idx}|{ints([code[v] for v in group])}|{rows(resp)}"); meta.append(("tf", det, r))
+        ops.append(f"testfunc|one_way_anova|{idx}|{ints([code[v] for v in group])}|{rows(resp)}"); meta.append(("tf", det, r, slack))
     outs = run_model(ops)
     agree = True
-    for o, (kind, det, got) in zip(outs, meta):
+    for o, mt in zip(outs, meta):
+        kind, det, got = mt[:3]; slack = mt[3] if len(mt) > 3 else 0.0
         if kind == "history":
             model = [[int(v) for v in r.split()] for r in o.split(";")] if o.strip() else []
             ok = model == got
         elif kind == "tf":
-            ok = got[0] == "ok" and o != "ValueError" and close(got[1], frac(o))
+            ok = got[0] == "ok" and o != "ValueError" and close(got[1], frac(o), ab=1e-12 + slack)
         else:
             key = lambda t: (1 if t >= 0 else -1) * float(t) ** 2
-            ok = got[0] == "ok" and o != "ValueError" and close(key(got[1]), frac(o), rel=1e-7, ab=1e-9)
+            ok = got[0] == "ok" and o != "ValueError" and close(key(got[1]), frac(o), rel=(1e-4 if slack else 1e-7), ab=(1e-6 if slack else 1e-9))
         if not ok:
             agree = False
             ctx.violation("correspondence", {"op": kind, "model": o[:400], "impl": str(got)[:400], "input": det}, site="Experiment" if kind == "history" else "TestFunc", no_input=True)
